@@ -399,7 +399,7 @@ def compare_cell_strict(x, y):
 
 def compare_cell_by_ids(x, y):
     """Compare cells x,y strictly using cell IDs"""
-    if _is_ignored("/cells/*/id"):
+    if _is_ignored("/cells/*/id") or "id" in _ignored_keys("/cells/*"):
         # Ignored ids should not steer the alignment of cells
         return compare_cell_strict(x, y)
     # Only consider equal if both have IDs and they match
